@@ -13,6 +13,7 @@ CHECKS = {
  "C02": dict(engine="symtorch+z3", tech="symbolic execution of rho/pi/gamma + z3 on normal-form residuals; PSD via Gram identity + sum of squares", design="2/C02"),
  "C03": dict(engine="symtorch+z3", tech="symbolic execution of the gradient methods vs symbolic derivative of the NLL; z3 on normal-form residuals", design="2/C03"),
  "C04": dict(engine="symtorch+z3", tech="symbolic execution of the rotation routines on symbolic psi/rho vs dense Kronecker reference; z3 on residuals", design="2/C04"),
+ "C05": dict(engine="symtorch+z3", tech="symbolic execution of gibbs_steps with a recording Bernoulli stub (all outcomes unrolled); conditionals, termwise detailed balance and chain structure decided by z3 on residuals", design="2/C05"),
  "C15": dict(engine="symtorch+z3", tech="symbolic execution of every cplx function vs complex-scalar arithmetic; z3 on residuals", design="2/C15"),
 }
 CHECKS.update(json.load(open(os.path.join(HERE, "bin", "manifest_extra.json"))) if os.path.exists(os.path.join(HERE, "bin", "manifest_extra.json")) else {})
